@@ -4,6 +4,8 @@ EXTENDS Signature, Json, TLCExt
 MCAddrs == {"a1", "a2"}
 MCRefs == {"r1", "r2"}
 MCLinks == {"l1", "l2"}
+\* keys that are no reference id's hash but look like one: "<reference id>^U" = the hash in upper case, "^S" = the hash plus a space
+MCVarKeys == {"r1^U", "r1^S"}
 MCKeys == {"k1", "k2"}
 MCKeyType == [k \in MCKeys |-> IF k = "k1" THEN "ecdsa" ELSE "rsa"]
 
@@ -26,12 +28,13 @@ Mutations(k, ko) == {
 }
 MCTries ==
   { [m |-> "publish", r |-> r, l |-> l] : r \in MCRefs, l \in MCLinks } \cup
+  { [m |-> "publish", r |-> "r1^U", l |-> "l2"], [m |-> "publish", r |-> "r1^S", l |-> "l2"], [m |-> "publish", r |-> "r1^U", l |-> "l1"] } \cup
   { ST("a1", "r1", rec, "ok") : rec \in Mutations("k1", "k2") \cup Mutations("k2", "k1") } \cup
   { ST("a2", "r1", Good("k1", "a2", "r1", "l1"), "ok"), ST("a1", "r2", Good("k2", "a1", "r2", "l2"), "ok"),
     ST("a1", "r1", Good("k1", "a1", "r1", "l1"), "malformed"), ST("a1", "r1", [present |-> TRUE, signer |-> "", over |-> <<"", "", "">>, alg |-> "", cert |-> "", wellformed |-> TRUE], "missingfields") } \cup
   { [m |-> "createaccount", a |-> a, pk |-> pk] : a \in {"a1", "a2", "malformed"}, pk \in {"pk1", "malformed"} }
 
-ASSUME PrintT(ToJson([meta |-> [Addrs |-> MCAddrs, Refs |-> MCRefs, Links |-> MCLinks, Keys |-> MCKeys]]))
+ASSUME PrintT(ToJson([meta |-> [Addrs |-> MCAddrs, Refs |-> MCRefs, Links |-> MCLinks, Keys |-> MCKeys, VarKeys |-> MCVarKeys]]))
 SID(v) == <<TLCFP(v), TLCFP(<<v, 7>>)>>
 NZ(f, z) == [k \in { x \in DOMAIN f : f[x] # z } |-> f[k]]
 ObsI == [links |-> NZ(links, None),
